@@ -22,6 +22,23 @@ the guard against negative indexes (defect D16) is in the source now -/
 theorem coll_listGetitem_eq (xs : List V) (n : Int) : Gen.Coll.listGetitem xs n = listAt xs n := by
   simp [Gen.Coll.listGetitem, listAt]
 
+set_option linter.unusedSimpArgs false in
+/-- the translated `MapType.get` with the default `None`: a present key gives its value WHATEVER that value is
+(`null` included — `None` is not a sentinel for "absent"), a missing key is `KeyError`, a key of an invalid
+type `TypeError`.  Proved by cases on the outcome of the dict lookup, so early returns / else chains /
+try-except forms of the same behaviour all pass. -/
+theorem coll_mapGet_spec (kvs : List (V × V)) (k : V) :
+    Gen.Coll.mapGet kvs k .null = (if validKey k then dictGetitem kvs k else .error .typeError) := by
+  simp only [Gen.Coll.mapGet, dictContains, dictGetD, dictGetitem, V.isNone, getitem]
+  cases hk : validKey k <;> cases h : lookup k kvs with
+  | error e => cases e <;> simp [bind, Except.bind, throw, throwThe, MonadExceptOf.throw, hk]
+  | ok o => cases o <;> simp [bind, Except.bind, throw, throwThe, MonadExceptOf.throw, pure, Except.pure, hk]
+
+/-- … which is field selection `m.f` of the transpiled-program model (the template is `m.get('f')`) -/
+theorem coll_mapGet_eq (kvs : List (V × V)) (f : List Nat) :
+    Gen.Coll.mapGet kvs (.str f) .null = select .C (.map kvs) f := by
+  rw [coll_mapGet_spec]; simp [validKey, select, handled, dictGetitem]
+
 theorem coll_resultCaught_eq : Gen.Coll.resultCaught = resultCaught := by decide
 
 theorem coll_index_handlers : Gen.Coll.handlers_member_index = indexHandlers := by decide
